@@ -219,23 +219,55 @@ func propC06(c *Ctx) {
 					// two syntactically separate `n-1` computations: compare structure
 					same = sym(nArg) == sym(vals[0])
 				}
+				if !same {
+					aff := &affEnv{}
+					same = linEq(aff.Of(nArg), aff.Of(vals[0]))
+				}
 				if _, isConst := vals[0].(*ssa.Const); same && !isConst {
 					ok, detail = true, "returns (N, Source.Hash(N)) with N = "+shortSym(vals[0])
 					if b, isB := vals[0].(*ssa.BinOp); isB && b.Op == token.SUB {
-						if isStopLoad(b.X, fStart) {
-							kinds["start"] = true
-							// only under start > 0
-							pos, _ := cmpEdges(lt, func(bb *ssa.BinOp) bool {
-								n, ok := constInt(bb.Y)
-								return bb.Op == token.GTR && isStopLoad(bb.X, fStart) && ok && n == 0
-							})
-							if !guardedByEdges(lt, r, pos) {
-								ok, detail = false, "start-1 is used without the start > 0 test"
+						// edges on which the configured start is known non-zero
+						startPos, _ := cmpEdges(lt, func(bb *ssa.BinOp) bool {
+							n, ok := constInt(bb.Y)
+							return (bb.Op == token.GTR || bb.Op == token.NEQ) && isStopLoad(bb.X, fStart) && ok && n == 0
+						})
+						_, ne := cmpEdges(lt, func(bb *ssa.BinOp) bool {
+							n, ok := constInt(bb.Y)
+							return bb.Op == token.EQL && isStopLoad(bb.X, fStart) && ok && n == 0
+						})
+						startPos = append(startPos, ne...)
+						// N may be chosen between the configured start and the head (a phi): every choice is judged
+						for _, lf := range phiLeaves(b.X) {
+							switch {
+							case isStopLoad(lf.Val, fStart):
+								kinds["start"] = true
+								// only when start > 0 (start-1 would wrap otherwise)
+								guarded := guardedByEdges(lt, r, startPos)
+								if lf.Phi != nil && lf.Pred != nil {
+									guarded = guarded || edgeGuarded(lt, lf.Pred, lf.Phi.Block(), startPos)
+									// `first := t.start; if first == 0 {…}`: the test is on the copy
+									if !guarded {
+										_, nz := cmpEdges(lt, func(bb *ssa.BinOp) bool {
+											n, ok := constInt(bb.Y)
+											return bb.Op == token.EQL && bb.X == lf.Val && ok && n == 0
+										})
+										nzT, _ := cmpEdges(lt, func(bb *ssa.BinOp) bool {
+											n, ok := constInt(bb.Y)
+											return (bb.Op == token.GTR || bb.Op == token.NEQ) && bb.X == lf.Val && ok && n == 0
+										})
+										guarded = edgeGuarded(lt, lf.Pred, lf.Phi.Block(), append(nz, nzT...))
+									}
+								}
+								if !guarded {
+									ok, detail = false, "start-1 is used without the start > 0 test"
+								}
+							default:
+								if cl, k := resultOf(lf.Val); cl != nil && k == 0 && cl.Call.IsInvoke() && cl.Call.Method.Name() == "Latest" {
+									kinds["head"] = true
+								} else {
+									ok, detail = false, "position is neither start-1 nor head-1"
+								}
 							}
-						} else if cl, k := resultOf(b.X); cl != nil && k == 0 && cl.Call.IsInvoke() && cl.Call.Method.Name() == "Latest" {
-							kinds["head"] = true
-						} else {
-							ok, detail = false, "position is neither start-1 nor head-1"
 						}
 						if n, okc := constInt(b.Y); !okc || n != 1 {
 							ok, detail = false, "position is not N-1"
